@@ -303,6 +303,21 @@ class ParseContext:
       module = root_name
     else:
       module = '.'.join([source.partial_path(), *inner_names])
+      # The module above derives from the (file-local) name the import is bound
+      # to. If another file bound the same name to a different module, the
+      # resulting selector may already belong to a different object: fall back
+      # to the imported module's real path (made unique if that is taken too,
+      # which happens when an alias equals another module's name).
+      def taken(module_name):
+        existing = _REGISTRY.get(module_name + '.' + fn_or_cls_name)
+        return existing is not None and existing.wrapped is not fn_or_cls
+
+      if taken(module):
+        real_module = '.'.join([source.module, *inner_names])
+        module, i = real_module, 2
+        while taken(module):
+          module = real_module + str(i)
+          i += 1
 
     original = _inverse_lookup(fn_or_cls)
     allowlist = denylist = None
